@@ -64,6 +64,10 @@ def gen_envs(rng, n_envs, quick=True):
         sp = core.Rng(core.derive(int(env["seed"][:16], 16), "spelling"))
         env["sep"] = sp.weighted([("/", 6), ("//", 1), ("/./", 1)])
         env["prefix"] = sp.weighted([("", 8), ("./", 1), (".//", 1), ("././", 1)])
+        # a project directory that has been lived in (its own stream): an earlier revision really run or compiled here, maybe killed
+        lv = core.Rng(core.derive(int(env["seed"][:16], 16), "lived"))
+        if lv.chance(1, 7) and not env.get("hard") and env.get("start") != "gone":
+            env["dirty"] = pipeline.gen_lived(lv)
         envs.append(env)
     return envs
 
@@ -132,8 +136,15 @@ def run_case(case):
         if env["mode"] == "run":
             world = core.fresh_world(wfiles, sub="m%d" % i)
             if env.get("dirty"):
-                pipeline.place_dirty(world, env, pipeline.module_artefacts(wfiles, spelled), sources=wfiles, entry=(env["subdir"] + "/" + entry) if (env.get("subdir") and env.get("start") != "gone") else entry)
+                pipeline.place_dirty(world, env, pipeline.module_artefacts(wfiles, spelled), sources=wfiles, entry=(env["subdir"] + "/" + entry) if (env.get("subdir") and env.get("start") != "gone") else entry,
+                                     live=(os.path.join(world, rel_cwd), spelled))
                 st_probes["stale_artefacts_present"] = 1
+                for a in pipeline.take_lived():
+                    procs.append(a)
+                    rules.append([env["dirty"]["kill"]] if env["dirty"].get("kill") else [])
+                    st_probes["project_directory_lived_in_by_an_older_revision"] = 1
+                    if a["rc"] == 137:
+                        st_probes["older_revision_killed_at_" + env["dirty"]["kill"]["call"]] = 1
             if gone:
                 spelled = os.path.join(world, rel_cwd, spelled)
             if env.get("crash"):
@@ -152,8 +163,15 @@ def run_case(case):
         else:
             world = core.fresh_world(wfiles, sub="m%d" % i)
             if env.get("dirty"):
-                pipeline.place_dirty(world, env, pipeline.module_artefacts(wfiles, spelled), sources=wfiles, entry=(env["subdir"] + "/" + entry) if (env.get("subdir") and env.get("start") != "gone") else entry)
+                pipeline.place_dirty(world, env, pipeline.module_artefacts(wfiles, spelled), sources=wfiles, entry=(env["subdir"] + "/" + entry) if (env.get("subdir") and env.get("start") != "gone") else entry,
+                                     live=(os.path.join(world, rel_cwd), spelled))
                 st_probes["stale_artefacts_present"] = 1
+                for a in pipeline.take_lived():
+                    procs.append(a)
+                    rules.append([env["dirty"]["kill"]] if env["dirty"].get("kill") else [])
+                    st_probes["project_directory_lived_in_by_an_older_revision"] = 1
+                    if a["rc"] == 137:
+                        st_probes["older_revision_killed_at_" + env["dirty"]["kill"]["call"]] = 1
             cwd = os.path.join(world, rel_cwd)
             if gone:
                 spelled = os.path.join(cwd, spelled)
